@@ -556,7 +556,7 @@ func init() {
 	core.Register(&core.Check{
 		ID:    "C09",
 		Level: "model_checking",
-		Rule:  "stateless exploration of map enumeration orders: each scenario (NewFrom of maps with overlapping dotted keys; Merge of tree pairs under 5 policies; Unpack of mutually referencing settings into map and struct; Unpack of references that exist both in the configuration and in an Env configuration; Unpack of references to lists and objects (diamonds) into typed maps and structs; each followed by Unpack, FlattenedKeys and CompareConfigs) is re-executed under every vector of order choices with at most Bound non-sorted maps, and under the complete product of orders when that is small; all 12 map-iteration sites of go-ucfg are routed through the order hook; oracle: one outcome (success or innermost error reason, canonical data, keys) per scenario; states = distinct outcomes, transitions = executions; non-trivial = scenario with at least two explored orders",
+		Rule:  "stateless exploration of map enumeration orders: each scenario (NewFrom of maps with overlapping dotted keys; Merge of tree pairs under 5 policies; Unpack of mutually referencing settings into map and struct; Unpack of references that exist both in the configuration and in an Env configuration; Unpack of references to lists and objects (diamonds) into typed maps and structs; each followed by Unpack, FlattenedKeys and CompareConfigs) is re-executed under every vector of order choices with at most Bound non-sorted maps, and under the complete product of orders when that is small; all 12 map-iteration sites of go-ucfg are routed through the order hook; oracle: one outcome (success or innermost error reason, canonical data, keys) per scenario; states = distinct outcomes, transitions = executions; non-trivial = scenario with at least two explored orders; plus interface-keyed maps with overlapping dotted keys and mutually referring settings read into typed map targets",
 		Assumptions: []string{
 			"maps with <=5 keys: all permutations; larger: rotations, reversal, first-two swap (none occur in these scenarios)",
 			"deviation bound 1-2 per scenario class unless the whole product (<= budget) is explored, which is counted in scenarios_explored_completely",
